@@ -68,12 +68,12 @@ func boundedMarker(fn func()) { fn() }
 
 // bounded runs every fn in its own goroutine and waits up to the liveness bound for all of them.
 //
-// When parked is non-empty the wait may end early, only to shorten the time to report a hang that the full bound
-// would report as well: on 8 consecutive looks 300 ms apart (a) every unfinished goroutine of the call is parked
-// in a lock wait (sync.Mutex / sync.Cond / sync.RWMutex) below the frame `parked`, with an unchanged stack, and
-// (b) no goroutine of the process that has an immudb frame on its stack is running, runnable or in a system call —
-// i.e. nobody who could still release a lock is making progress (lock holders inside immudb do I/O or wait for
-// other locks; none of them sleeps or selects while holding a value-log lock or the export mutex).
+// When parked is non-empty (used by the start-up probes only, never by the tests) the wait may end early, to shorten
+// the time to report a hang that the full bound would report as well: on 8 consecutive looks 300 ms apart (a) every
+// unfinished goroutine of the call is parked in a lock wait (sync.Mutex / sync.Cond / sync.RWMutex) below the frame
+// `parked`, with an unchanged stack, and (b) every other goroutine with an immudb frame on its stack is itself parked
+// waiting for another goroutine (lock, channel, wait group) or is an idle indexer — nobody is running, runnable,
+// sleeping, selecting, preempted or in a system call, i.e. nobody who could still release a lock can make progress.
 func bounded(parked string, fns ...func()) (finished bool) {
 	return boundedFor(liveness, parked, fns...)
 }
@@ -186,7 +186,9 @@ func lookAtGoroutines(frame string, ids map[string]bool) (parked int, active boo
 			}
 			continue
 		}
-		if strings.Contains(g, "codenotary/immudb") && (state == "running" || state == "runnable" || state == "syscall") {
+		// anything with an immudb frame that is not parked waiting for another goroutine may still make progress
+		waiting := lockWait || state == "chan receive" || state == "chan send" || state == "sync.WaitGroup.Wait" || state == "semacquire"
+		if strings.Contains(g, "codenotary/immudb") && !waiting && !strings.Contains(g, "watchers.(*WatchersHub).WaitFor") {
 			active = true
 		}
 	}
